@@ -210,7 +210,7 @@ impl Adapter for MemoryAdapter {
                 let mut matched = true;
                 for (i, field_value) in field_values.iter().enumerate() {
                     if !field_value.is_empty()
-                        && &rule[field_index + i + 2] != field_value
+                        && rule.get(field_index + i + 2) != Some(field_value)
                     {
                         matched = false;
                         break;
